@@ -3,6 +3,7 @@ import OrsoVerif.Drv.C02
 import OrsoVerif.Drv.C03
 import OrsoVerif.Drv.C04
 import OrsoVerif.Drv.C05
+import OrsoVerif.Drv.C10
 
 open Wire
 
@@ -12,6 +13,7 @@ def dispatch (prop op : String) (args : List PyVal) : Option (List PyVal) :=
   | "C03" => Drv.C03.handle op args
   | "C04" => Drv.C04.handle op args
   | "C05" => Drv.C05.handle op args
+  | "C10" => Drv.C10.handle op args
   | _ => none
 
 def handle (toks : List String) : String :=
